@@ -20,12 +20,14 @@ def step (line : String) : String :=
     | "escape" => escapeCmd args
     | "parse" => parseCmd args
     | "mapper" => mapperCmd args
+    | "mapperrace" => mapperraceCmd args
     | "pipe" => pipeCmd args
     | "queue" => queueCmd args
     | "relay" => relayCmd args
     | "frame" => frameCmd args
     | "udpq" => udpqCmd args
     | "qjudge" => qjudgeCmd args
+    | "queueblk" => queueblkCmd args
     | _ => "bad-op"
 
 partial def loop (h : IO.FS.Stream) (out : IO.FS.Stream) : IO Unit := do
